@@ -43,7 +43,96 @@ fn mock_config(nr: u16) -> MockConfig {
     }
 }
 
-async fn scenario(id: usize, nr: u16, lo: u16, hi: u16, occupied: &[u16]) -> Result<Value, String> {
+/// RAII: node 0 of the mock lives at `::1` while this is alive
+struct V6Guard;
+impl V6Guard {
+    fn set(on: bool) -> V6Guard {
+        crate::mock::V6_NODE0.store(on, std::sync::atomic::Ordering::SeqCst);
+        V6Guard
+    }
+}
+impl Drop for V6Guard {
+    fn drop(&mut self) {
+        crate::mock::V6_NODE0.store(false, std::sync::atomic::Ordering::SeqCst);
+    }
+}
+
+fn v6_available() -> bool {
+    std::net::TcpListener::bind((std::net::Ipv6Addr::LOCALHOST, 0)).is_ok()
+}
+
+/// What the session publishes as the node's sharding parameters: (shard count, ignored msb bits), (0, 0) = unsharded / unknown.
+fn published(session: &scylla::client::session::Session) -> (u16, u8) {
+    let st = session.get_cluster_state();
+    st.get_nodes_info().first().and_then(|n| n.sharder()).map(|s| (s.nr_shards.get(), s.msb_ignore)).unwrap_or((0, 0))
+}
+
+/// A node that comes back with other sharding parameters (another ignore-msb, same or another shard count): what the session
+/// publishes for it after each restart, and what the published sharder answers for a few tokens.
+async fn msb_scenario(id: usize, steps: &[(u16, u8)]) -> Result<Value, String> {
+    use scylla::client::PoolSize;
+    use scylla::client::session_builder::SessionBuilder;
+    let handler: crate::mock::Handler = Arc::new(|_req: &Request| Action::Reply(Reply::Void));
+    let mut cfg = mock_config(steps[0].0);
+    cfg.nodes[0].msb_ignore = steps[0].1;
+    let t0 = Instant::now();
+    let mock = loop {
+        match MockCluster::try_start(cfg.clone(), handler.clone()).await {
+            Ok(m) => break m,
+            Err(_) if t0.elapsed() < Duration::from_secs(3) => tokio::time::sleep(Duration::from_millis(50)).await,
+            Err(e) => return Err(format!("mock start: {e}")),
+        }
+    };
+    let session = SessionBuilder::new()
+        .known_node(mock.contact_point(0))
+        .pool_size(PoolSize::PerShard(std::num::NonZeroUsize::new(1).unwrap()))
+        .build()
+        .await
+        .map_err(|e| format!("session: {e}"))?;
+    let tokens: [i64; 6] = [0, -1, 1, i64::MAX, i64::MIN + 1, 0x0123_4567_89ab_cdef];
+    let mut seen = Vec::new();
+    for (k, (nr, msb)) in steps.iter().enumerate() {
+        if k > 0 {
+            mock.stop_node(0).await;
+            let mut c = mock.config();
+            c.nodes[0].nr_shards = Some(*nr);
+            c.nodes[0].msb_ignore = *msb;
+            mock.set_config(c);
+            tokio::time::sleep(Duration::from_millis(100)).await;
+            let t0 = Instant::now();
+            while mock.try_start_node(0).await.is_err() && t0.elapsed() < Duration::from_secs(3) {
+                tokio::time::sleep(Duration::from_millis(50)).await;
+            }
+        }
+        // until the pool of the (re)started node covers every shard, at most 6 s; then a moment for the pool to publish
+        let t1 = Instant::now();
+        loop {
+            let shards: std::collections::BTreeSet<u16> = mock.open_connections(0).iter().filter_map(|(_, s, _)| *s).collect();
+            if shards.len() as u16 >= *nr || t1.elapsed() > Duration::from_secs(6) {
+                break;
+            }
+            tokio::time::sleep(Duration::from_millis(20)).await;
+        }
+        let t2 = Instant::now();
+        while published(&session) != (*nr, *msb) && t2.elapsed() < Duration::from_millis(4000) {
+            tokio::time::sleep(Duration::from_millis(20)).await;
+        }
+        let p = published(&session);
+        let st = session.get_cluster_state();
+        let shards: Vec<Value> = match st.get_nodes_info().first().and_then(|n| n.sharder()) {
+            Some(s) => tokens.iter().map(|t| json!([t.to_le_bytes().to_vec(), s.shard_of(scylla::routing::Token::new(*t))])).collect(),
+            None => vec![],
+        };
+        let covered = mock.open_connections(0).iter().filter_map(|(_, s, _)| *s).collect::<std::collections::BTreeSet<u16>>().len();
+        seen.push(json!({"node": [nr, msb], "published": [p.0, p.1], "shards": shards, "covered": covered}));
+    }
+    drop(session);
+    mock.shutdown().await;
+    Ok(json!({"id": id, "kind": "msb", "steps": seen}))
+}
+
+async fn scenario(id: usize, nr: u16, lo: u16, hi: u16, occupied: &[u16], v6: bool) -> Result<Value, String> {
+    let _g = V6Guard::set(v6);
     use scylla::client::PoolSize;
     use scylla::client::session_builder::SessionBuilder;
     use scylla::routing::ShardAwarePortRange;
@@ -54,6 +143,12 @@ async fn scenario(id: usize, nr: u16, lo: u16, hi: u16, occupied: &[u16]) -> Res
         if let Ok(l) = std::net::TcpListener::bind((Ipv4Addr::UNSPECIFIED, *p)) {
             holders.push(l);
             really_occupied.push(*p);
+            if v6 {
+                // (fails when the IPv4 wildcard already covers the port for both families: then it is taken anyway)
+                if let Ok(l6) = std::net::TcpListener::bind((std::net::Ipv6Addr::UNSPECIFIED, *p)) {
+                    holders.push(l6);
+                }
+            }
         }
     }
     let handler: crate::mock::Handler = Arc::new(|_req: &Request| Action::Reply(Reply::Void));
@@ -89,7 +184,7 @@ async fn scenario(id: usize, nr: u16, lo: u16, hi: u16, occupied: &[u16]) -> Res
     drop(session);
     mock.shutdown().await;
     drop(holders);
-    Ok(json!({"id": id, "nr": nr, "lo": lo, "hi": hi, "occupied": really_occupied, "accepts": accepts, "plain_accepts": plain,
+    Ok(json!({"id": id, "kind": "ports", "v6": v6 as i64, "nr": nr, "lo": lo, "hi": hi, "occupied": really_occupied, "accepts": accepts, "plain_accepts": plain,
               "covered": covered.into_iter().collect::<Vec<_>>(), "start_err": start_err}))
 }
 
@@ -119,7 +214,7 @@ pub fn cmd_e2e(args: &[String]) -> i32 {
                     2 => ports.iter().copied().filter(|p| p % nr == 0).collect(),
                     _ => ports.iter().copied().filter(|p| ports.iter().any(|q| q % nr == p % nr && q > p)).collect(),
                 };
-                match rt.block_on(scenario(id, nr, lo, hi, &occ)) {
+                match rt.block_on(scenario(id, nr, lo, hi, &occ, false)) {
                     Ok(v) => writeln!(out, "{v}").unwrap(),
                     Err(e) => {
                         eprintln!("c11 e2e scenario {id}: {e}");
@@ -130,7 +225,52 @@ pub fn cmd_e2e(args: &[String]) -> i32 {
             }
         }
     }
+    // the node is reached over IPv6
+    let mut v6 = 0;
+    if v6_available() {
+        for nr in [2u16, 3, 5] {
+            for variant in 0..3 {
+                let len = 2 * nr + 1;
+                let lo = base;
+                let hi = base + len - 1;
+                base += 64;
+                let ports: Vec<u16> = (lo..=hi).collect();
+                let occ: Vec<u16> = match variant {
+                    0 => vec![],
+                    1 => (0..nr).filter_map(|s| ports.iter().copied().find(|p| p % nr == s)).collect(),
+                    _ => ports.iter().copied().filter(|p| ports.iter().any(|q| q % nr == p % nr && q > p)).collect(),
+                };
+                match rt.block_on(scenario(id, nr, lo, hi, &occ, true)) {
+                    Ok(v) => {
+                        writeln!(out, "{v}").unwrap();
+                        v6 += 1;
+                    }
+                    Err(e) => {
+                        eprintln!("c11 e2e scenario {id} (IPv6): {e}");
+                        errors += 1;
+                    }
+                }
+                id += 1;
+            }
+        }
+    }
+    // the node comes back with other sharding parameters
+    for steps in [
+        vec![(4u16, 12u8), (4, 0)],
+        vec![(4, 0), (4, 12), (4, 20)],
+        vec![(3, 12), (3, 40), (5, 40)],
+        vec![(2, 5), (4, 5), (4, 33), (2, 33)],
+    ] {
+        match rt.block_on(msb_scenario(id, &steps)) {
+            Ok(v) => writeln!(out, "{v}").unwrap(),
+            Err(e) => {
+                eprintln!("c11 e2e scenario {id} (restart): {e}");
+                errors += 1;
+            }
+        }
+        id += 1;
+    }
     out.flush().unwrap();
-    println!("{}", json!({"cmd": "c11-e2e", "scenarios": id, "errors": errors}));
+    println!("{}", json!({"cmd": "c11-e2e", "scenarios": id, "v6_scenarios": v6, "errors": errors}));
     if errors > 0 { 2 } else { 0 }
 }
